@@ -131,3 +131,51 @@ func VerifC20Entropy() {
 		vCover("verified")
 	}
 }
+
+// VerifC20Sequence: ONE source feeds a whole derivation history (New, Append, Append) and fails after
+// k bytes in total, for every k up to the total amount requested: the operation during which it runs
+// dry returns an error and no token; everything before it succeeded with keys made of the bytes
+// actually delivered.
+func VerifC20Sequence() {
+	vForbidPanic("C20")
+	draws := vParam("draws")
+	rootSeed := vBytes("root", 32)
+	root := ed25519.NewKeyFromSeed(rootSeed)
+	rootPub := root.Public().(ed25519.PublicKey)
+	k := vChoose("deliver", 32*draws+1)
+	chunk := [...]int{0, 1, 5}[vChoose("chunking", 3)]
+	fail := [...]error{vErrEntropy, io.EOF}[vChoose("error-kind", 2)]
+	rng := &vFailReader{deliver: k, chunk: chunk, fail: fail, final: vChoose("error-with-last-chunk", 2) == 1}
+	var tok *Biscuit
+	for d := 0; d < draws; d++ {
+		var next *Biscuit
+		var err error
+		if d == 0 {
+			next, err = New(rng, root, defaultSymbolTable.Clone(), c20Authority())
+		} else {
+			bb := tok.CreateBlock()
+			bb.AddFact(Fact{Predicate{Name: "x", IDs: []Term{Integer(d)}}})
+			next, err = tok.Append(rng, bb.Build())
+		}
+		enough := k >= 32*(d+1)
+		if !enough {
+			vCover("ran-dry")
+			vAssert(err != nil, "C20.seq.error-reported")
+			vAssert(next == nil, "C20.seq.no-token")
+			return
+		}
+		vAssert(err == nil, "C20.seq.success")
+		if err != nil || next == nil {
+			return
+		}
+		tok = next
+		secret := tok.container.Proof.GetNextSecret()
+		vAssert(len(rng.got) >= 32*(d+1), "C20.seq.drew")
+		if len(rng.got) >= 32*(d+1) {
+			vAssert(vBytesEq(secret, rng.got[32*d:32*(d+1)]), "C20.seq.secret-is-delivered")
+		}
+		_, verr := tok.AuthorizerFor(WithSingularRootPublicKey(rootPub))
+		vAssert(verr == nil, "C20.seq.verifies")
+	}
+	vCover("all-drawn")
+}
